@@ -400,7 +400,8 @@ Section ReplyObj.
 
   (* ---------- a Reply object under any sequence of setter operations ----------
      reply.code = c / reply.message = v / reply.enhanced_status_code = v (a str, or
-     None / '' written []) / reply.enhanced_status_code = False.
+     None / '' written []) / reply.enhanced_status_code = False / reply.copy(other) /
+     reply.send(io).
      The ESC setter stores match.groups() = (class as given, subject, detail); the getter
      (get_esc above) ignores the stored class and takes the class of the CURRENT code at
      read time.  A setter that raises ValueError (code_pattern / esc_pattern refuse the
@@ -409,7 +410,9 @@ Section ReplyObj.
   | ROCode (c : list N)
   | ROMsg (v : list N)
   | ROEsc (v : list N)
-  | ROEscFalse.
+  | ROEscFalse
+  | ROCopy (o : reply)     (* reply.copy(o): _code, _message, _esc assigned directly from o, no setter runs *)
+  | ROSend.                (* reply.send(io): an observation, the object is not changed *)
 
   Definition code_setter (r : reply) (c : list N) : option reply :=
     if ctor_code_ok c then Some (mkReply c (r_esc r) (r_msg r)) else None.
@@ -420,6 +423,8 @@ Section ReplyObj.
     | ROMsg v => set_message_chk r v
     | ROEsc v => esc_setter r v
     | ROEscFalse => Some (mkReply (r_code r) EscFalse (r_msg r))
+    | ROCopy o => Some (mkReply (r_code o) (r_esc o) (r_msg o))
+    | ROSend => Some r
     end.
 
   (* the caller catches the ValueError and goes on with the object *)
@@ -430,4 +435,16 @@ Section ReplyObj.
   Definition fresh_reply : reply := mkReply [] EscNone [].
 
   Definition rops_run (ops : list rop) : reply := fold_left rop_step ops fresh_reply.
+
+  (* the objects as they are at each ROSend, in order: IO.send_reply(reply) encodes
+     reply.code and reply.message as they are at that moment (nothing is kept from an
+     earlier write), so the k-th write puts wire_of (k-th of these) on the wire *)
+  Fixpoint rops_sent (r : reply) (ops : list rop) : list reply :=
+    match ops with
+    | [] => []
+    | o :: ops' => (match o with ROSend => [r] | _ => [] end) ++ rops_sent (rop_step r o) ops'
+    end.
+
+  Definition rops_wire (ops : list rop) : bytes :=
+    List.concat (map wire_of (rops_sent fresh_reply ops)).
 End ReplyObj.
